@@ -24,11 +24,13 @@ TIERS = {
     "quick": {"shards": 4, "cases": 500, "timeout": 300},
     "thorough": {"shards": 16, "cases": 5000, "timeout": 3000},
 }
-FLOORS = {"quick": {"copies_of_raw_trees_cleaned_up": 180, "texts_with_strings_spelled_like_keywords_parsed": 300,
+FLOORS = {"quick": {"sequences_of_parsers_sharing_one_any_token_object": 300,
+                    "copies_of_raw_trees_cleaned_up": 180, "texts_with_strings_spelled_like_keywords_parsed": 300,
                     "parsers_described_before_use": 150, "texts_parsed_with_nothing_skipped": 300,
                     "distinct_nontrivial": 400, "parses_compared": 5000, "negative_cases_rejected": 300,
                     "optional_absent": 500, "final_delimiters_accepted": 300, "repeated_key_maps": 100},
-          "thorough": {"copies_of_raw_trees_cleaned_up": 750, "texts_with_strings_spelled_like_keywords_parsed": 1200,
+          "thorough": {"sequences_of_parsers_sharing_one_any_token_object": 1200,
+                       "copies_of_raw_trees_cleaned_up": 750, "texts_with_strings_spelled_like_keywords_parsed": 1200,
                        "parsers_described_before_use": 600, "texts_parsed_with_nothing_skipped": 1200,
                        "distinct_nontrivial": 15000, "parses_compared": 200000, "negative_cases_rejected": 10000,
                        "optional_absent": 20000, "final_delimiters_accepted": 10000, "repeated_key_maps": 4000}}
